@@ -1542,12 +1542,22 @@ impl FdlActiveStation {
 
             // Only check and transition to ActiveIdle on the first telegram.
             if first_in {
-                if telegram.source_address() != Some(self.token_ring.next_station()) {
-                    log::warn!(
-                        "Unexpected station #{} transmitting after token pass to #{}",
-                        telegram.source_address().unwrap(),
-                        self.token_ring.next_station()
-                    );
+                match telegram.source_address() {
+                    Some(source_address) if source_address != self.token_ring.next_station() => {
+                        log::warn!(
+                            "Unexpected station #{} transmitting after token pass to #{}",
+                            source_address,
+                            self.token_ring.next_station()
+                        );
+                    }
+                    None => {
+                        // Telegrams without source address (short confirmation)
+                        log::warn!(
+                            "Unexpected telegram without source address after token pass to #{}",
+                            self.token_ring.next_station()
+                        );
+                    }
+                    _ => (),
                 }
 
                 // In case this was a telegram to us, we must already handle it in ActiveIdle state
